@@ -537,6 +537,45 @@ def many_keys_lock_cleanup(run):
         core.rm_rf(scratch)
 
 
+def large_store_cleanup(run, nforeign=2600):
+    """a store that holds thousands of results of other / older jugfiles (more than any batch size): the default and --keep-locks modes remove
+    every one of them and none of the current jugfile's"""
+    scratch = core.scratch_dir()
+    try:
+        for kind, mode in (('redis', 'default'), ('redis', 'keepLocks'), ('file', 'default'), ('dict', 'keepLocks')):
+            d = os.path.join(scratch, 'large-%s-%s' % (kind, mode))
+            os.makedirs(d, exist_ok=True)
+            cfg = Cfg(kind, d)
+            store = cfg.open()
+            nactive = 24
+            for k in range(nactive + nforeign):
+                store.dump(k, keyname(k))
+            assert store.getlock(keyname(3)).get()
+            assert store.getlock(keyname(nactive + 5)).get()
+            try:
+                store.close()
+            except Exception:
+                pass
+            real_cleanup(cfg, mode, list(range(nactive)))
+            st2 = cfg.open()
+            left = [k for k in range(nactive, nactive + nforeign) if st2.can_load(keyname(k))]
+            lost = [k for k in range(nactive) if not st2.can_load(keyname(k)) or st2.load(keyname(k)) != k]
+            locks = [k for k in (3, nactive + 5) if st2.getlock(keyname(k)).is_locked()]
+            run.case(('large-store', kind, mode), nontrivial=True)
+            run.count('large_store_cleanups')
+            rp = {'kind': 'large-store-cleanup', 'backend': kind, 'mode': mode, 'foreign': nforeign, 'active': nactive}
+            if left:
+                run.fail('cleanup-leaves-foreign:%s:large' % mode, '`jug cleanup` (%s) on a %s store with %d results of the jugfile and %d others: %d of the others are still stored afterwards (e.g. %s)'
+                         % (mode, kind, nactive, nforeign, len(left), keyname(left[0]).decode()), rp)
+            if lost:
+                run.fail('cleanup-removes-needed:%s:large' % mode, '`jug cleanup` (%s) on a %s store with %d results of the jugfile and %d others removed %d needed results' % (mode, kind, nactive, nforeign, len(lost)), rp)
+            if locks != ([3, nactive + 5] if mode == 'keepLocks' else []):
+                run.fail('cleanup-locks:%s:large' % mode, '`jug cleanup` (%s) on a large %s store: locks left %s' % (mode, kind, locks), rp)
+            core.rm_rf(d)
+    finally:
+        core.rm_rf(scratch)
+
+
 def cleanup_family(run, drv, n):
     rng = core.rng_for(run.seed, 'c10')
     scratch = core.scratch_dir()
